@@ -660,9 +660,22 @@ func jobC18(c *rt.Ctx) {
 				b := ref.ToLE(x, 32)
 				b[31] |= byte(hb) << 7
 				var e Bignum25519
+				b = atAlign(b)
 				Expand(&e, b)
 				var back [32]byte
 				Contract(back[:], &e)
+				// ... and at every alignment of the input and of the output buffer
+				for al := 0; al < 8; al++ {
+					var e2 Bignum25519
+					ib := atAlign(b)
+					Expand(&e2, ib)
+					ob := atAlign(make([]byte, 32))
+					Contract(ob, &e2)
+					if e2 != e || !bytes.Equal(ob, back[:]) {
+						c.Violation("C18 Expand/Contract alignment", fmt.Sprintf("Expand / Contract of %x depends on the alignment of the byte buffer", b), map[string]interface{}{"string": ref.Hex(b)})
+						break
+					}
+				}
 				c.Step(2)
 				c.Class("Expand")
 				want := new(big.Int).Mod(x, ref.P)
@@ -673,4 +686,19 @@ func jobC18(c *rt.Ctx) {
 		}
 		c.Distinct(fmt.Sprintf("expand %d", k), true)
 	}
+}
+
+// atAlign returns a copy of b that starts at address = k (mod 8) inside a larger buffer and keeps
+// spare capacity behind it (callers hold keys and strings inside packed records, at any alignment).
+var alignCounter int
+
+func atAlign(b []byte) []byte {
+	alignCounter++
+	off := alignCounter & 7
+	buf := make([]byte, len(b)+24)
+	for i := range buf {
+		buf[i] = 0xA5
+	}
+	copy(buf[off:], b)
+	return buf[off : off+len(b)]
 }
